@@ -220,7 +220,9 @@ def greeting_rules(rep, prog, cfg):
                 okt = sw[0]["arms"].get("Ok")
                 L = max(loops, key=len)
                 # from the Ok arm the loop header is not reachable again
-                ok2 = okt is not None and gcalls[0] not in reach(g.succs, [okt])
+                # (variant-sensitive, A13: with the parse in a spliced helper its outcomes merge in one return block)
+                from ..cfg import vreach
+                ok2 = okt is not None and gcalls[0] not in vreach(b, [okt])
             rep.check(ok2, "C18.greeting-loop", "%s/%s Ok leaves the loop" % (cfg, name), b.loc(b.span),
                       "a successfully parsed greeting does not end the read loop")
     # "any ACK" to the password is the incorrect-password verdict: the client sees an ACK only if the ACK line parser accepts it, so
